@@ -7,6 +7,7 @@ an `…_native.bv_decide.ax_*` axiom which the audit lists by name.
 -/
 import ElfioVerif.Basic
 import ElfioVerif.Gen.Funcs
+import ElfioVerif.Gen.SitesC10
 import Std.Tactic.BVDecide
 
 namespace ElfioVerif
@@ -40,5 +41,26 @@ theorem conv32_bytes (a b c d : BitVec 8) :
 theorem conv64_bytes (a b c d e f g h : BitVec 8) :
     conv64 (h ++ g ++ f ++ e ++ d ++ c ++ b ++ a) true = a ++ b ++ c ++ d ++ e ++ f ++ g ++ h := by
   simp only [conv64]; bv_decide
+
+/-! ### C10 — the ELF_ST_BIND tests of `generic_arrange_local_symbols` and the r_info packing of
+`generic_set_entry_rel/rela` against the `get_r_sym` / `get_r_type` extractors -/
+
+theorem arr_scan1_nonlocal_bits (b : BitVec 8) : arr64_scan1_nonlocal b = (b >>> 4 != 0#8) := by
+  simp only [arr64_scan1_nonlocal, arr_conv8, STB_LOCAL]; bv_decide
+theorem arr_scan2_local_bits (b : BitVec 8) : arr64_scan2_local b = (b >>> 4 == 0#8) := by
+  simp only [arr64_scan2_local, arr_conv8, STB_LOCAL]; bv_decide
+
+theorem rel64_sym_info (s t : BitVec 32) :
+    rel64_r_sym (rsw_rel64_info s t) = s := by
+  simp only [rel64_r_sym, rsw_rel64_info]; bv_decide
+theorem rel64_type_info (s t : BitVec 32) :
+    rel64_r_type (rsw_rel64_info s t) = t := by
+  simp only [rel64_r_type, rsw_rel64_info]; bv_decide
+theorem rel32_sym_info (s t : BitVec 32) (h : s &&& 0xFF000000#32 = 0#32) :
+    rel32_r_sym (BitVec.setWidth 64 (rsw_rel32_info s t)) = s := by
+  simp only [rel32_r_sym, rsw_rel32_info]; bv_decide
+theorem rel32_type_info (s : BitVec 32) (t' : BitVec 64) :
+    rel32_r_type (BitVec.setWidth 64 (rsw_rel32_info s (rel32_r_type t'))) = rel32_r_type t' := by
+  simp only [rel32_r_type, rsw_rel32_info]; bv_decide
 
 end ElfioVerif
